@@ -336,6 +336,10 @@ class Interp:
 
     def write(self, w, loc, val):
         root = loc.root
+        if w.alias:
+            # a copy or its source is overwritten: they no longer denote the same value
+            for k in [k for k, src in w.alias.items() if k[0] == root or src.root == root]:
+                del w.alias[k]
         if not loc.path:
             w.mem[root] = val
             return
@@ -457,6 +461,18 @@ class Interp:
                     return v, ('top', None, 'arr-elem', '?')
                 if v[2][0] == 'repeat':
                     return v, v[2][1]
+                if v[2][0] == 'bytes_of' and v[2][1].root in w.mem and v[2][1].root not in w.written and w.mem[v[2][1].root][0] == 'seq':
+                    # an array that holds "the bytes of window s[k..k+n)" of an unwritten object: element i is the cell s[k+i]
+                    return v, self.read(w, v[2][1].ext(('i', v[2][2] + idx)))
+                if v[2][0] == 'be' and idx.is_const() and v[2][2] == v[1] and 1 <= v[1] <= 8 and 0 <= idx.const < v[1]:
+                    # a byte of `x.to_be_bytes()`: the bytes are the base-256 digits of x, most significant first
+                    n_ = v[1]
+                    digs = [ATOMS.fresh(f"byte{k_}of({v[2][1].pretty()})", 0, 255, defn=('be_byte', v[2][1], n_, k_), key=('be_byte', v[2][1], n_, k_)) for k_ in range(n_)]
+                    tot = Lin.c(0)
+                    for a_ in digs:
+                        tot = tot.scale(256) + Lin.atom(a_)
+                    w.store = w.store.add_eq(tot, v[2][1])
+                    return v, ('int', Lin.atom(digs[idx.const]))
                 a = ATOMS.fresh('byte', 0, 255, defn=('arr_elem', v[2], idx), key=('arr_elem', v[2], idx))
                 return v, ('int', Lin.atom(a))
             raise AnalysisError(f"index projection on {tag}")
@@ -620,7 +636,18 @@ class Interp:
                         x = int.from_bytes(raw[i * esz:(i + 1) * esz], 'little', signed=bool(ty['of'].get('signed')))
                         vals.append(vint(x))
                     return ('arr', ty['len'], ('elems', tuple(vals)))
+        if k == 'array' and ty['of']['k'] == 'adt' and o.get('item'):
+            # constant table of enum / struct values (`[Option<usize>; 6]`), destructured element by element by gse-mir
+            cj = self.facts.consts.get(o['item'])
+            if cj and isinstance(cj.get('elems'), list) and len(cj['elems']) == ty['len']:
+                vals = [self._const_adt(ej['ty'], ej) for ej in cj['elems']]
+                if all(v is not None for v in vals):
+                    return ('arr', ty['len'], ('elems', tuple(vals)))
         if k == 'adt' and 'fields' in o:
+            v = self._const_adt(ty, o)
+            if v is not None:
+                return v
+        if False and k == 'adt' and 'fields' in o:
             # destructured constant (gse-mir): variant index + scalar fields
             fs = []
             ok = True
@@ -655,6 +682,32 @@ class Interp:
         if k == 'array' and ty['of']['k'] == 'int':
             return ('arr', ty['len'], ('const', o['s']))
         return ('top', reg_ty(ty), 'const', o['s'])
+
+    def _const_adt(self, ty, o):
+        """value of a destructured constant (gse-mir): variant index + scalar fields; None when a field is not a scalar"""
+        if 'fields' not in o or ty.get('k') != 'adt':
+            return None
+        fs = []
+        for fj in o['fields']:
+            fk = fj['ty']['k']
+            if 'bits' in fj and fk == 'int':
+                bits, size = int(fj['bits']), fj['size']
+                if fj['ty'].get('signed') and bits >= 1 << (8 * size - 1):
+                    bits -= 1 << (8 * size)
+                fs.append(vint(bits))
+            elif 'bits' in fj and fk == 'bool':
+                fs.append(vbool(int(fj['bits']) != 0))
+            elif fk == 'tuple' and not fj['ty']['of']:
+                fs.append(UNIT)
+            else:
+                return None
+        a = self.adt(ty['name'])
+        if a:
+            if a['kind'] == 'enum' and 'variant' in o:
+                return ('enum', ((o['variant'], tuple(fs)),))
+            if a['kind'] == 'struct':
+                return ('agg', tuple(fs))
+        return None
 
     def eval_promoted(self, w, pb):
         """value of the place a promoted constant refers to: run its single block on a scratch
@@ -948,6 +1001,12 @@ class Interp:
             cur = self.resolve_place(w, frame, rv['place'])
             if cur[1].root[0] != 'L':
                 self.rec(frame, site[1], 'event', site, ('disc_read', cur[1], self.partition(w), w.fork()))
+            # looking at an unmodified copy (`match (label_type, self.last_label)`) is looking at the original
+            src_, hops_ = w.alias.get((cur[1].root, cur[1].path)) if w.alias else None, 0
+            while src_ is not None and hops_ < 4:
+                if src_.root[0] != 'L':
+                    self.rec(frame, site[1], 'event', site, ('disc_read', src_, self.partition(w), w.fork()))
+                src_, hops_ = w.alias.get((src_.root, src_.path)), hops_ + 1
             return ('disc', cur[1], rv['pty'].get('name'))
         if r == 'aggregate':
             ops = [self.eval_operand(w, frame, o) for o in rv['ops']]
@@ -960,7 +1019,8 @@ class Interp:
                     return ('enum', ((rv['variant'], tuple(ops)),))
                 return ('agg', tuple(ops))
             if kind == 'array':
-                return ('arr', len(ops), ('elems', tuple(ops)))
+                c = self._cells_as_window(w, ops)
+                return ('arr', len(ops), c if c is not None else ('elems', tuple(ops)))
             if kind == 'closure':
                 return ('agg', tuple(ops))
             return ('top', reg_ty(rv['ty']), 'aggregate', kind)
@@ -1159,7 +1219,18 @@ class Interp:
             return False
         if len(alts) != len(v[1]):
             new = ('enum', alts)
+            src = w.alias.get((loc.root, loc.path)) if w.alias else None
             self.write(w, loc, new)
+            if src is not None and src.root in w.mem:
+                # the refined value is an unmodified copy of another place (`match (kind, label_type)`, an enum handed to a
+                # helper by value): the place it was copied from learns the same
+                try:
+                    sv = self.read(w, src)
+                except AnalysisError:
+                    sv = None
+                if sv == v:
+                    self.refine_variant(w, src, vs, keep)
+                    w.alias[(loc.root, loc.path)] = src
             if self._has_identity(v):
                 # copies of the same value (a `Copy` enum passed on by value, moved into a helper, stored in a ghost) learn the
                 # same thing: payloads carry the identity of the unknown they came from, so structural equality means "same value"
@@ -1207,6 +1278,7 @@ class Interp:
         if k == 'assign':
             v = self.eval_rvalue(w, frame, st['rv'], site)
             self.assign(w, frame, st['place'], v, site)
+            self.note_copies(w, frame, st['place'], st['rv'], v)
         elif k == 'storage_dead':
             w.mem.pop(self.local_root(frame, st['local']), None)
         elif k == 'storage_live':
@@ -1223,6 +1295,56 @@ class Interp:
                 self.assume(w, v[1], True)
         else:
             self.note_unmodelled(f"statement {k}")
+
+    def _cells_as_window(self, w, ops):
+        """`[s[k], s[k+1], .., s[k+n-1]]` (a slice pattern `&[a, b, c]` rebuilt as an array): the bytes of the window
+        s[k..k+n) of an object that was not written - the same value `s[k..k+n].try_into()` gives"""
+        if not (2 <= len(ops) <= 16) or not all(o[0] == 'int' and len(o[1].terms) == 1 and o[1].const == 0 and o[1].terms[0][1] == 1 for o in ops):
+            return None
+        infos = [ATOMS.info(o[1].terms[0][0]).defn for o in ops]
+        if not all(d and d[0] == 'elem' and d[1] == infos[0][1] for d in infos):
+            return None
+        if not all(infos[i][2] == infos[0][2] + i for i in range(len(infos))):
+            return None
+        tag = infos[0][1]
+        roots = [r for r, v in w.mem.items() if v[0] == 'seq' and v[4] == tag]
+        if len(roots) != 1 or roots[0] in w.written:
+            return None
+        return ('bytes_of', Loc(roots[0]), infos[0][2])
+
+    def _multi_enum(self, v):
+        return v[0] == 'enum' and len(v[1]) > 1
+
+    def _operand_loc(self, w, frame, o):
+        if o.get('o') not in ('copy', 'move'):
+            return None
+        try:
+            cur = self.resolve_place(w, frame, o['place'])
+        except AnalysisError:
+            return None
+        return cur[1] if cur[0] == 'loc' else None
+
+    def note_copies(self, w, frame, place, rv, v):
+        """remember that an undecided enum value just stored is a copy of another place (see refine_variant)"""
+        r = rv.get('r')
+        if r == 'use' and self._multi_enum(v):
+            pairs = [((), rv.get('op'))]
+        elif r == 'aggregate' and v[0] == 'agg' and rv.get('ops') and len(rv['ops']) == len(v[1]):
+            pairs = [((('f', i),), o) for i, o in enumerate(rv['ops']) if self._multi_enum(v[1][i])]
+        else:
+            return
+        if not pairs:
+            return
+        try:
+            cur = self.resolve_place(w, frame, place)
+        except AnalysisError:
+            return
+        if cur[0] != 'loc':
+            return
+        for path, o in pairs:
+            src = self._operand_loc(w, frame, o) if o else None
+            if src is not None and src.root != cur[1].root:
+                w.alias[(cur[1].root, cur[1].path + path)] = src
 
     def assign(self, w, frame, place, v, site):
         cur = self.resolve_place(w, frame, place)
@@ -1533,7 +1655,13 @@ class Interp:
         if body is not None and body.def_kind == 'Closure' and fn.get('trait') in FN_TRAITS:
             return self.call_closure(w, frame, bb, site, body, args)
         if body is not None and not body.derived and key not in self.cfg.get('no_inline', ()):
-            return self.inline(w, frame, bb, site, body, args)
+            srcs = None
+            if term.get('args') is not None and len(term['args']) == len(args) and any(self._multi_enum(a) for a in args):
+                # an undecided enum handed over by value: the parameter is a copy of the caller's place
+                srcs = [self._operand_loc(w, frame, o) if self._multi_enum(a) else None for o, a in zip(term['args'], args)]
+                if any(sl is not None and self.read(w, sl) != a for sl, a in zip(srcs, args)):
+                    srcs = None           # the arguments were rearranged on the way (closure call, function value)
+            return self.inline(w, frame, bb, site, body, args, arg_srcs=srcs)
         if body is not None and body.def_kind == 'Closure' and fn.get('trait') in FN_TRAITS:
             return self.call_closure(w, frame, bb, site, body, args)
         res = stdsum.dispatch(self, w, frame, site, fn, key, args, term)
@@ -1559,7 +1687,12 @@ class Interp:
             # a storage buffer handed by value to a function without a summary: whether it survives is not decided
             self.rec(frame, bb, 'event', site, ('escape', tuple(esc), key, self.key_desc(w)))
         if dest_ty['k'] == 'int':
-            a = ATOMS.fresh(f"{key.split('::')[-1]}()", *int_range(dest_ty), defn=('call', key, tuple(args)))
+            if key in self.cfg.get('pure_calls', ()):
+                # a function of its arguments only (declared by the rule pack): the same call is the same value, also when the
+                # fixpoint executes the block again
+                a = ATOMS.fresh(f"{key.split('::')[-1]}()", *int_range(dest_ty), defn=('call', key, tuple(args)), key=('purecall', key, tuple(args)))
+            else:
+                a = ATOMS.fresh(f"{key.split('::')[-1]}()", *int_range(dest_ty), defn=('call', key, tuple(args)))
             return [(w, ('int', Lin.atom(a)))]
         return [(w, ('top', reg_ty(dest_ty), ('call', key), 'ret'))]
 
@@ -1635,7 +1768,7 @@ class Interp:
         self.stats['ext_declined'] = self.stats.get('ext_declined', 0) + 1
         return None
 
-    def inline(self, w, frame, bb, site, body, args):
+    def inline(self, w, frame, bb, site, body, args, arg_srcs=None):
         if self.depth > 12:
             raise AnalysisError("inlining depth")
         self.stats['calls_inlined'] += 1
@@ -1647,7 +1780,7 @@ class Interp:
         ctx = frame.ctx + ((frame.body.key, bb, 'via', n),)
         self.depth += 1
         try:
-            rets = self.run_function(body, w, args, ctx)
+            rets = self.run_function(body, w, args, ctx, arg_srcs=arg_srcs)
         finally:
             self.depth -= 1
         return rets
@@ -1668,7 +1801,7 @@ class Interp:
             self._single_assign[body.name] = sa
         return sa
 
-    def run_function(self, body, w, args, ctx):
+    def run_function(self, body, w, args, ctx, arg_srcs=None):
         """returns list of (world, return value)"""
         fid = Obj.fresh()
         frame = Frame(fid, body, ctx)
@@ -1678,6 +1811,8 @@ class Interp:
         w = w.fork()
         for i, a in enumerate(args):
             w.mem[('L', fid, i + 1)] = a
+            if arg_srcs and i < len(arg_srcs) and arg_srcs[i] is not None:
+                w.alias[(('L', fid, i + 1), ())] = arg_srcs[i]
         w.mem[('L', fid, 0)] = MOVED
         rets = self.run_body(frame, w)
         out = []
@@ -1736,8 +1871,12 @@ class Interp:
             if root[0] != 'L':
                 continue
             t = self.tag(v)
-            if t is None and v[0] == 'int' and v[1].is_const() and root[1] == frame.fid and root[2] in frame.single_assign:
-                t = ('i', v[1].const)
+            if t is None and v[0] == 'int' and v[1].is_const():
+                # a named value pinned to a constant by a branch (`match h_len { 1 => .. }`, a table lookup split per entry) keeps
+                # its worlds apart - in the frame that branched and in the helpers it calls meanwhile
+                fr_ = frame if root[1] == frame.fid else self.frames.get(root[1])
+                if fr_ is not None and root[2] in fr_.single_assign:
+                    t = ('i', v[1].const)
             if t is not None:
                 items.append((root, t))
         items.sort(key=repr)
@@ -2168,6 +2307,7 @@ class Interp:
         J.mem = mem
         J.store = store
         J.facts = facts
+        J.alias = {k: v for k, v in E.alias.items() if N.alias.get(k) == v} if (E.alias and N.alias) else {}
         J.events = E.events
         J.written = E.written | N.written
         if J.written != E.written:
